@@ -1,3 +1,10 @@
 import GnarkVerif.Props.C02_subgroup_bls12_381
+import GnarkVerif.Props.C02_subgroup_bls12_377
+import GnarkVerif.Props.C02_subgroup_bls24_315
+import GnarkVerif.Props.C02_subgroup_bls24_317
+import GnarkVerif.Props.C02_subgroup_bw6_761
+import GnarkVerif.Props.C02_subgroup_bw6_633
+import GnarkVerif.Props.C02_subgroup_prime
 /- C02 (tie T): the fast subgroup tests and cofactor clearing of the translated g1.go / g2.go (Gen/Curve/*.lean) against
-   Mathlib's group of points. This module only imports the per-curve files; generic part: Proofs/Subgroup.lean. -/
+   Mathlib's group of points. This module only imports the per-curve files (written by bin/mkc02sub.py; bls12_381 is the
+   hand-written master); generic part: Proofs/Subgroup.lean. -/
